@@ -108,6 +108,7 @@ Step(t) ==
             /\ loc' = [loc EXCEPT ![t] = [NoLoc EXCEPT !.oid = clock + 1]]
             /\ clock' = clock + 1
             /\ Goto(t, CASE o.op \in {"set", "set-safe", "increment", "remove", "get", "get-safe", "watch"} -> "perm"
+                         [] o.op = "replicate" -> IF AtomicSet THEN "setatomic" ELSE "readold"
                          [] o.op = "unwatch" -> "senders"
                          [] o.op \in {"unwatch-all", "close"} -> "uacopy")
             /\ UNCHANGED <<mem, wat, wk, inbox, bad>>
@@ -118,7 +119,7 @@ Step(t) ==
                          [] o.op \in {"get", "get-safe"} -> "getread"
                          [] o.op = "watch" -> "watchw")
             /\ UNCHANGED <<mem, wat, wk, inbox, loc, clock, bad>>
-       [] s = "readold" /\ o.op \in {"set", "set-safe"} ->
+       [] s = "readold" /\ o.op \in {"set", "set-safe", "replicate"} ->
             LET old == mem[o.k] IN
             IF Refuses(o, old, loc[t].resolving)
             THEN IF Strategy = "newer"
